@@ -266,12 +266,27 @@ ALGEBRAS = [
 
 def gen_config(rng, name, quick=True):
     letters = rng.choice(["ab", "abc", "abc", "abcd"])
+    style = rng.choice(["mixed", "mixed", "mixed", "long", "words", "twins"])
     nsyl = rng.randint(2, 7)
     syl = set()
     while len(syl) < nsyl:
         syl.add("".join(rng.choice(letters) for _ in range(rng.choice([1, 1, 2, 2, 3]))))
-    syl = sorted(s.encode() for s in syl)
-    prof = dict(rows=(4, 40), clean=True, lens=rng.choice([[1, 1, 2, 2, 3, 4, 5], [1, 2, 3, 3, 4, 4, 5, 6], [1, 1, 1, 2]]),
+    algebra = rng.choice(ALGEBRAS)
+    lens = rng.choice([[1, 1, 2, 2, 3, 4, 5], [1, 2, 3, 3, 4, 4, 5, 6], [1, 1, 1, 2]])
+    if style == "long":           # many codes beyond the index depth: tail pages, match_extra_code
+        syl = set(list(syl)[:3]) | {letters[0]}
+        lens = [3, 4, 4, 5, 5, 6, 7]
+    elif style == "words":        # table-style: one-syllable codes that extend each other
+        syl = {letters[0] * k for k in (1, 2, 3)} | {"".join(rng.choice(letters) for _ in range(rng.randint(1, 4))) for _ in range(8)}
+        lens = [1, 1, 1, 1, 2]
+    elif style == "twins":        # syllables that an algebra rule maps onto one spelling: several keys/syllables equal the code
+        letters = "abc"
+        stems = {"".join(rng.choice("abc") for _ in range(rng.randint(0, 2))) for _ in range(4)}
+        syl = {"b" + x for x in stems} | {"c" + x for x in stems}
+        algebra = rng.choice([["derive/^b/c/"], ["derive/^b/c/"], ["xform/^b/c/"], ["derive/^c/b/", "abbrev/^([a-z]).+$/$1/"]])
+        lens = [1, 1, 1, 2, 3]
+    syl = sorted(s.encode() for s in syl if s)
+    prof = dict(rows=(4, 40), clean=True, lens=lens,
                 weights=rng.choice(["ties", "plain", "ties"]), texts="dense", repeat_code=0.35, repeat_text=0.3, share_prefix=0.6,
                 sort=rng.choice([None, "by_weight", "original"]))
     n = rng.randint(*prof["rows"])
@@ -279,7 +294,7 @@ def gen_config(rng, name, quick=True):
     case = {"name": name + "d", "files": [f]}
     delims = rng.choice(["'", "'", " '", "'"])
     return {"name": name, "case": case, "alphabet": letters, "delims": delims, "completion": rng.random() < 0.6,
-            "strict": rng.random() < 0.2, "algebra": rng.choice(ALGEBRAS)}
+            "strict": rng.random() < 0.2, "algebra": algebra, "style": style}
 
 
 def config_to_json(cfg):
@@ -611,10 +626,10 @@ def run(c):
             audit["ok"] = False
             audit["failures"].append(("RimeModel.Props.C07", "leanchecker: " + log))
     run_ = Runner(c)
-    n_cfg, max_len, n_rand = (14, 4, 40) if quick else (90, 5, 120)
+    n_cfg, max_len, n_rand = (48, 4, 40) if quick else (400, 5, 100)
     stats = {"configurations": 0, "inputs": 0, "candidates": 0, "lookup_entries": 0, "with_sentence": 0, "with_completion": 0,
              "long_code_hits": 0, "graph_edges": 0, "ambiguous": 0, "nontrivial": set(), "algebra": {}, "completion_on": 0,
-             "sort_original": 0, "shrink_evals": 0, "crashes": 0, "exhaustive_length": max_len}
+             "sort_original": 0, "shrink_evals": 0, "crashes": 0, "exhaustive_length": max_len, "styles": {}}
     items = corpus_items()
     for i in range(n_cfg):
         cfg = gen_config(c.rng, "k%d" % i, quick)
@@ -629,6 +644,7 @@ def run(c):
             a = json.dumps(cfg["algebra"])
             stats["algebra"][a] = stats["algebra"].get(a, 0) + 1
             stats["completion_on"] += 1 if cfg["completion"] else 0
+            stats["styles"][cfg.get("style", "corpus")] = stats["styles"].get(cfg.get("style", "corpus"), 0) + 1
             stats["sort_original"] += 1 if cfg["case"]["files"][0].get("sort") == "original" else 0
         if crash:
             stats["crashes"] += 1
